@@ -186,6 +186,102 @@ func genRing(c *Ctx) error {
 	return c.Emit("Ring.lean", sb.String())
 }
 
+// ownershipSites lists, in source order, every place of a function body where a packet buffer
+// changes hands: pool Get/Put, Link.Send, link.receive, channel sends and receives.
+func (c *Ctx) ownershipSites(body ast.Node) []string {
+	var out []string
+	ast.Inspect(body, func(n ast.Node) bool {
+		switch x := n.(type) {
+		case *ast.SendStmt:
+			out = append(out, "send "+c.Expr(x.Chan)+" <- "+c.Expr(x.Value))
+		case *ast.UnaryExpr:
+			if x.Op == token.ARROW {
+				out = append(out, "recv "+c.Expr(x.X))
+			}
+		case *ast.CallExpr:
+			if sel, ok := x.Fun.(*ast.SelectorExpr); ok {
+				switch sel.Sel.Name {
+				case "Get", "Put", "Send", "receive", "WriteBatch", "ReadBatch":
+					out = append(out, c.Expr(x))
+				}
+			}
+			if id, ok := x.Fun.(*ast.Ident); ok && id.Name == "readUpTo" {
+				out = append(out, c.Expr(x))
+			}
+		}
+		return true
+	})
+	return out
+}
+
+// stmtTexts returns the text of every statement (any depth) of body whose text contains one of
+// the given fragments, in source order.
+func (c *Ctx) stmtTexts(body ast.Node, frags ...string) []string {
+	var out []string
+	ast.Inspect(body, func(n ast.Node) bool {
+		switch n.(type) {
+		case *ast.AssignStmt, *ast.IncDecStmt, *ast.RangeStmt:
+			var t string
+			if r, ok := n.(*ast.RangeStmt); ok {
+				t = "range " + c.Expr(r.X)
+			} else {
+				t = c.Expr(n)
+			}
+			for _, f := range frags {
+				if strings.Contains(t, f) {
+					out = append(out, t)
+					break
+				}
+			}
+		}
+		return true
+	})
+	return out
+}
+
 func genPool(c *Ctx) error {
-	return fmt.Errorf("group pool: not implemented yet")
+	var sb strings.Builder
+	sb.WriteString("namespace Scion.Gen.Pool\n")
+	type fn struct{ dir, recv, name, as string }
+	fns := []fn{
+		{"router", "dataPlane", "runProcessor", "runProcessor"},
+		{"router", "dataPlane", "runSlowPathProcessor", "runSlowPathProcessor"},
+		{"router", "bfdSend", "Send", "bfdSend"},
+		{"router", "PacketPool", "Get", "poolGet"},
+		{"router", "PacketPool", "Put", "poolPut"},
+		{"router/underlayproviders/udpip", "udpConnection", "receive", "connReceive"},
+		{"router/underlayproviders/udpip", "udpConnection", "send", "connSend"},
+		{"router/underlayproviders/udpip", "", "readUpTo", "readUpTo"},
+		{"router/underlayproviders/udpip", "connectedLink", "receive", "connectedReceive"},
+		{"router/underlayproviders/udpip", "connectedLink", "Send", "connectedSend"},
+		{"router/underlayproviders/udpip", "detachedLink", "receive", "detachedReceive"},
+		{"router/underlayproviders/udpip", "detachedLink", "Send", "detachedSend"},
+		{"router/underlayproviders/udpip", "internalLink", "receive", "internalReceive"},
+		{"router/underlayproviders/udpip", "internalLink", "Send", "internalSend"},
+		{"router/underlayproviders/udpip", "internalLink", "runProcessor", "internalRunProcessor"},
+	}
+	for _, f := range fns {
+		fd, err := c.Func(f.dir, f.recv, f.name)
+		if err != nil {
+			return err
+		}
+		fmt.Fprintf(&sb, "/-- hand-over sites of `%s.%s.%s` in source order -/\n", f.dir, f.recv, f.name)
+		fmt.Fprintf(&sb, "def %s : List String := %s\n", f.as, LeanStrList(c.ownershipSites(fd.Body)))
+	}
+	snd, err := c.Func("router/underlayproviders/udpip", "udpConnection", "send")
+	if err != nil {
+		return err
+	}
+	fmt.Fprintf(&sb, "/-- batch bookkeeping statements of udpConnection.send -/\n")
+	fmt.Fprintf(&sb, "def connSendBookkeeping : List String := %s\n",
+		LeanStrList(c.stmtTexts(snd.Body, "toWrite", "pkts[i]", "written")))
+	rcv, err := c.Func("router/underlayproviders/udpip", "udpConnection", "receive")
+	if err != nil {
+		return err
+	}
+	fmt.Fprintf(&sb, "/-- batch bookkeeping statements of udpConnection.receive -/\n")
+	fmt.Fprintf(&sb, "def connReceiveBookkeeping : List String := %s\n",
+		LeanStrList(c.stmtTexts(rcv.Body, "numReusable", "packets[")))
+	sb.WriteString("end Scion.Gen.Pool\n")
+	return c.Emit("Pool.lean", sb.String())
 }
